@@ -126,6 +126,9 @@ def gen_cases(ctx):
         yield {"nodes": nodes, "kinds": {str(k): v for k, v in kinds.items()},
                "profiles": {str(k): v for k, v in profiles.items()}, "frag_off": frag_off,
                "msgs": msgs, "seed": rng.getrandbits(30), "hostile": hostile, "stall": stall,
+               # multicast_level re-assigned on some nodes (it has no say in unicast routing)
+               "mlevel": {str(a): rng.choice([l for l in range(0, 5) if l != net_ref.level(a)])
+                          for a in nodes if i % 3 == 1 and kinds[a] != "mesh" and rng.random() < 0.35},
                "id_start": {str(a): rng.choice([0, 0, 7, 65530]) for a in nodes}}
 
 
@@ -141,6 +144,15 @@ def gen_sweeps(ctx):
         msgs = [{"src": 0o1 if t % 2 else 0o12, "dst": 0o12 if t % 2 else 0o1, "len": 5 + t % 7, "type": t}
                 for t in range(k * 32, k * 32 + 32)]
         yield dict(base, msgs=msgs, seed=900 + k, profiles=prof(k))
+    # relays whose multicast_level was re-assigned below / above their tree level route as before
+    deep = [0, 0o1, 0o2, 0o12, 0o112, 0o3112]
+    for k, ml in enumerate(({"2": 0, "10": 1}, {"2": 3, "74": 0}, {"10": 0, "2": 0, "74": 1})):
+        msgs = []
+        for j, (a, b) in enumerate(((0o1, 0o112), (0o112, 0o1), (0, 0o3112), (0o3112, 0), (0o1, 0o3112), (0o12, 0o3112))):
+            msgs.append({"src": a, "dst": b, "len": [5, 20, 0][j % 3], "type": [1, 66][j % 2]})
+        yield dict(base, nodes=deep, kinds={str(a): "net" for a in deep}, id_start={str(a): 0 for a in deep},
+                   msgs=msgs, seed=980 + k, mlevel=ml,
+                   profiles={str(a): N.rand_profile(ctx.sub_rng("c05d", k, a), base=40000) for a in deep})
     lens = list(range(145))
     for k in range(5):
         msgs = [{"src": 0o1 if n % 2 else 0, "dst": 0 if n % 2 else 0o1, "len": n, "type": [1, 2, 7, 64, 65, 127][n % 6]}
@@ -172,6 +184,8 @@ def _run(ctx, case, net):
             nn.obj.fragmentation = False
         if a == case.get("stall"):
             nn.lazy_ns = 1 << 60  # its application reads nothing until the final drain
+        if str(a) in case.get("mlevel", {}):
+            nn.obj.multicast_level = case["mlevel"][str(a)]
     if hostile:
         frng = random.Random(case["seed"] ^ 0x10551)
         net.air.collisions = True
